@@ -531,7 +531,23 @@ def run(ctx):
         "modelled_step_by_step": ["cds::container::TreiberStack<cds::gc::HP,int> push/pop (Model/Treiber.v)"] + (["the same with elimination back-off, collision arrays 1..4 static/dynamic (Model/Elim.v)"] if model_e else []),
         "observable_only": ["container::TreiberStack<DHP>", "intrusive::TreiberStack<HP|DHP>", "each with elimination on/off", "container::FCStack<int,std::stack<int>> elimination on/off"],
     })
-    return ctx.finish(vcheck.STD_TRUSTED + ["hook layer: khizmax_libcds_verif::atomic<T>, baton scheduler, event log (hooks/include)", "ocaml/conc_main.ml event printer", "ocaml/lincheck_main.ml (text parser around the verified lincheck)"],
+    # empty() / clear(): LV.Model.TreiberFull vs the real stack (checks/C09_full.py; theorems in the companion file
+    # Properties_C09_Full.v, built with the other obligations)
+    full_trusted = []
+    try:
+        import C09_full
+        fr = C09_full.run_full(ctx, report=True)
+        fcov = dict(fr["coverage"])
+        for k in ("print_assumptions", "obligation_names", "obligations", "discharged"):
+            fcov.pop(k, None)
+        ctx.coverage["full_interface_empty_clear"] = fcov
+        full_trusted = list(fr.get("trusted", []))
+        ctx.assumptions += list(fr.get("assumptions", []))
+    except vcheck.BuildError as e:
+        ctx.coverage["full_interface_empty_clear"] = {"build_failure": str(e)[-1500:]}
+        ctx.violation("harness/C09/full_main.cpp does not build against the working tree: the empty()/clear() part cannot be checked",
+                      {"kind": "build-failure", "harness": "full_main", "error": str(e)[-2000:]}, no_input=True)
+    return ctx.finish(vcheck.STD_TRUSTED + full_trusted + ["hook layer: khizmax_libcds_verif::atomic<T>, baton scheduler, event log (hooks/include)", "ocaml/conc_main.ml event printer", "ocaml/lincheck_main.ml (text parser around the verified lincheck)"],
                       ["sequential consistency: memory_order arguments are not modelled",
                        "compare_exchange_weak never fails spuriously under the hook",
                        "smr_safe (DESIGN 4): model nodes are never reused, i.e. no node is recycled while a validated hazard pointer can reach it; this is the conclusion of C01 for cds::gc::HP and is NOT re-proved here; the harness gives HP a retired capacity (4096) that no case reaches, so no node is freed during a case",
